@@ -44,23 +44,31 @@ def main():
     finally:
         shutil.rmtree(tmpdir, ignore_errors=True)
     report = []
-    tot = hit = 0
+    tot = hit = btot = bhit = 0
     for src in sorted(glob.glob(os.path.join(run.REPO, "src", "*.c"))):
         name = os.path.basename(src)[:-2]
         obj = os.path.join(out, "lib_" + name + ".o")
         if not os.path.exists(obj.replace(".o", ".gcno")):
             continue
-        p = subprocess.run(["gcov", "-o", obj, src], cwd=out, stdout=subprocess.PIPE, stderr=subprocess.STDOUT, text=True)
+        p = subprocess.run(["gcov", "-b", "-c", "-o", obj, src], cwd=out, stdout=subprocess.PIPE, stderr=subprocess.STDOUT, text=True)
         gc = os.path.join(out, os.path.basename(src) + ".gcov")
         if name == "string":      # string.c only instantiates the template in _string.c, twice
             gc = os.path.join(out, "_string.c.gcov")
         if not os.path.exists(gc):
             report.append(f"{name}.c: no coverage data ({p.stdout.strip()[:200]})"); continue
-        in_test = 0; missed = []; t = h = 0
+        in_test = 0; missed = []; t = h = 0; cur = None; nobr = []; bt = bh = 0
         for line in open(gc, errors="replace"):
             m = re.match(r"\s*([^:]+):\s*(\d+):(.*)", line)
             if not m:
+                b = re.match(r"branch\s+(\d+)\s+(never executed|taken (\d+))", line)
+                if b and cur and not in_test and cur[0] not in ("#####", "=====", "-"):
+                    bt += 1
+                    if b.group(2) == "never executed" or b.group(3) == "0":
+                        nobr.append((cur[1], int(b.group(1)), cur[2]))
+                    else:
+                        bh += 1
                 continue
+            cur = (m.group(1).strip(), int(m.group(2)), m.group(3).rstrip())
             cnt, ln, text = m.group(1).strip(), int(m.group(2)), m.group(3)
             if re.match(r"\s*#\s*ifdef\s+__cfg_test__", text):
                 in_test = 1
@@ -79,7 +87,11 @@ def main():
         report.append(f"{name}.c: {h}/{t} executable lines reached" + ("" if not missed else ", not reached:"))
         for ln, text in missed:
             report.append(f"    {ln:5d}: {text}")
-    head = f"reach of the quick-tier batches over /repo/src (first {a.runs} runs of each of {len(seen)} world/mode pairs, {nruns} runs): {hit}/{tot} executable lines outside the unit tests"
+        btot += bt; bhit += bh
+        report.append(f"{name}.c: {bh}/{bt} branch outcomes taken" + ("" if not nobr else ", never taken:"))
+        for ln, bn, text in nobr:
+            report.append(f"    {ln:5d} (outcome {bn}): {text.strip()}")
+    head = f"reach of the quick-tier batches over /repo/src (first {a.runs} runs of each of {len(seen)} world/mode pairs, {nruns} runs): {hit}/{tot} executable lines and {bhit}/{btot} branch outcomes outside the unit tests"
     os.makedirs(os.path.join(run.VERIF, "evidence"), exist_ok=True)
     with open(os.path.join(run.VERIF, "evidence", "reach.txt"), "w") as fh:
         fh.write(head + "\n" + "\n".join(report) + "\n")
